@@ -6,8 +6,8 @@ import (
 	"fmt"
 	"sync"
 
-	ds "github.com/ipfs/go-datastore"
 	dsec "github.com/decred/dcrd/dcrec/secp256k1/v4"
+	ds "github.com/ipfs/go-datastore"
 
 	"verif/engine/run"
 	"verif/engine/world"
